@@ -5,7 +5,7 @@
    of reliable rounds (timer, then everything emitted is delivered in order) completes the
    handshake on both sides.  Definitions and the generic soundness of the checker. *)
 From Coq Require Import List NArith Bool Arith Lia.
-From DtlsV Require Import Gen.Generated Hs.Abs12.
+From DtlsV Require Import Gen.Generated Hs.Abs12 Hs.Abs12Eq.
 Import ListNotations.
 Open Scope nat_scope.
 
@@ -108,37 +108,29 @@ Definition both_est (p : ep * ep) : bool := e_est (fst p) && e_est (snd p).
 
 Definition live_from (K : nat) (c : cfg) (s : ustate) : bool := both_est (rounds K c (u_c s, u_s s)).
 
-(* ---------- decidable equality of states (transparent, so that it computes) ---------- *)
+(* ---------- equality of states (boolean, proved correct in Abs12Eq) ---------- *)
 
-Definition rec_eq_dec (a b : rec) : {a = b} + {a <> b}.
-Proof. decide equality; apply Nat.eq_dec. Defined.
+Definition ustate_eqb (a b : ustate) : bool :=
+  ep_eqb (u_c a) (u_c b) && ep_eqb (u_s a) (u_s b) &&
+  leqb Bool.eqb (u_nc a) (u_nc b) && leqb Bool.eqb (u_ns a) (u_ns b).
 
-Definition fstate_eq_dec (a b : fstate) : {a = b} + {a <> b}.
-Proof. decide equality. Defined.
-
-Definition frag_eq_dec (a b : frag) : {a = b} + {a <> b}.
-Proof. repeat decide equality. Defined.
-
-Definition cache_eq_dec (a b : nat * nat * nat) : {a = b} + {a <> b}.
-Proof. repeat decide equality. Defined.
-
-Definition ep_eq_dec (a b : ep) : {a = b} + {a <> b}.
+Lemma ustate_eqb_ok a b : ustate_eqb a b = true -> a = b.
 Proof.
-  decide equality; try apply N.eq_dec; try apply Bool.bool_dec; try apply Nat.eq_dec;
-    try apply fstate_eq_dec;
-    try (apply list_eq_dec; first [apply rec_eq_dec | apply frag_eq_dec | apply cache_eq_dec]).
-Defined.
+  unfold ustate_eqb. destruct a, b; cbn. intro H.
+  repeat match goal with H : _ && _ = true |- _ => apply andb_prop in H; destruct H end.
+  repeat match goal with
+         | H : ep_eqb _ _ = true |- _ => apply ep_eqb_ok in H
+         | H : leqb Bool.eqb _ _ = true |- _ => apply (leqb_ok Bool.eqb bool_eqb_ok) in H
+         end.
+  subst. reflexivity.
+Qed.
 
-Definition ustate_eq_dec (a b : ustate) : {a = b} + {a <> b}.
-Proof. decide equality; try apply ep_eq_dec; apply list_eq_dec; apply Bool.bool_dec. Defined.
-
-Definition umem (s : ustate) (R : list ustate) : bool :=
-  existsb (fun x => if ustate_eq_dec s x then true else false) R.
+Definition umem (s : ustate) (R : list ustate) : bool := existsb (ustate_eqb s) R.
 
 Lemma umem_In s R : umem s R = true -> In s R.
 Proof.
   unfold umem. intro H. apply existsb_exists in H. destruct H as (x & Hx & He).
-  destruct (ustate_eq_dec s x); [now subst | discriminate].
+  apply ustate_eqb_ok in He. now subst.
 Qed.
 
 (* ---------- closure computation and the checker ---------- *)
